@@ -894,15 +894,16 @@ class BasicZoneProcessor: public ZoneProcessor {
               transition.era.offsetMinutes(),
               transition.rule.atTimeSuffix());
 
-          // startDateTime
+          // startDateTime: midnight of the day plus the AT time. The AT time
+          // can be as large as 25:00, which is not a valid LocalTime, so add
+          // it as seconds instead of passing it as (hour, minute).
           const uint16_t minutes = transition.rule.atTimeMinutes();
-          const uint8_t atHour = minutes / 60;
-          const uint8_t atMinute = minutes % 60;
           OffsetDateTime startDateTime = OffsetDateTime::forComponents(
               year, monthDay.month, monthDay.day,
-              atHour, atMinute, 0 /*second*/,
+              0 /*hour*/, 0 /*minute*/, 0 /*second*/,
               TimeOffset::forMinutes(prevOffsetMinutes));
-          transition.startEpochSeconds = startDateTime.toEpochSeconds();
+          transition.startEpochSeconds = startDateTime.toEpochSeconds()
+              + (acetime_t) 60 * minutes;
         }
 
         prevTransition = &transition;
